@@ -36,7 +36,8 @@ m = {
     "not_applicable": na,
     "notes": "Static-analysis family only: no check imports or runs /repo. Exit 0 = all enumerated obligations discharged (or only known findings); "
              "1 = VIOLATION; 2 = ANALYSIS-INCOMPLETE (anchor vanished / unrecognised idiom / self-test failure) - never a silent pass. "
-             "thorough = quick + the mutation/twin self-test slice of that property on in-memory overlays.",
+             "thorough = quick + the mutation/twin corpus slice of that property + its confirmed seeded changes (must be reported) + 75 behaviour-preserving "
+             "refactoring patches (must stay silent), all as in-memory overlays of the current tree.",
 }
 json.dump(m, open(os.path.join(HERE, "..", "MANIFEST.json"), "w"), indent=1)
 print("claimed:", [c["property_id"] for c in checks])
